@@ -89,6 +89,9 @@ Inductive bl_op :=
 | BPop (i : nat)
 | BGet (i : nat)
 | BGetNeg (k : nat)                  (* b[-k] *)
+| BInsertNeg (k : nat) (x : nat)     (* b.insert(-k, x): before the k-th item from the end, clamped to the front *)
+| BPopLast                           (* b.pop() *)
+| BPopNeg (k : nat)                  (* b.pop(-k) *)
 | BLen
 | BList.                            (* list(b) *)
 
@@ -111,6 +114,19 @@ Definition lspec_step (l : list nat) (op : bl_op) : list nat * bl_obs :=
               | Some v => (l, BVal v)
               | None => (l, BErr IndexError)
               end
+  | BInsertNeg k x => (list_insert (if Nat.eqb k 0 then 0 else length l - k)%nat x l, BNone)
+  | BPopLast => match l with
+                | [] => (l, BErr IndexError)
+                | _ => (removelast l, BVal (last l 0%nat))
+                end
+  | BPopNeg k => match (if Nat.eqb k 0 then Some 0%nat
+                        else if (k <=? length l)%nat then Some (length l - k)%nat else None) with
+                 | Some i => match nth_error l i with
+                             | Some v => (list_remove i l, BVal v)
+                             | None => (l, BErr IndexError)
+                             end
+                 | None => (l, BErr IndexError)
+                 end
   | BGetNeg k => match (if Nat.eqb k 0 then nth_error l 0
                         else if (k <=? length l)%nat then nth_error l (length l - k)%nat else None) with
                  | Some v => (l, BVal v)
